@@ -177,17 +177,20 @@ def zipArgs : List (List Nat) → Option (List Int) → Option (List Meta) → L
   | r :: rs, ws, mds =>
     (r, (ws.bind List.head?), (mds.bind List.head?)) :: zipArgs rs (ws.map List.tail) (mds.map List.tail)
 
+/-- the checks `add_edges` makes before the first mutation -/
+def addEdgesValid (raws : List (List Nat)) (ws : Option (List Int)) (mds : Option (List Meta)) : Bool :=
+  (match ws with
+    | none => true
+    | some l => decide raws.Nodup && l.length == raws.length) &&
+  (match mds with
+    | none => true
+    | some l => decide (raws.length ≤ l.length))
+
 /-- `add_edges(edge_list, weights, metadata)`: with `weights` the *raw* tuples must be pairwise different
     and as many as the weights; `metadata` must not be shorter than the list; then (and only then) an
     unweighted hypergraph that is given weights becomes weighted -/
 def addEdges (s : Store) (raws : List (List Nat)) (ws : Option (List Int)) (mds : Option (List Meta)) : Store × Out :=
-  let okW := match ws with
-    | none => true
-    | some l => decide raws.Nodup && l.length == raws.length
-  let okM := match mds with
-    | none => true
-    | some l => raws.length ≤ l.length
-  if okW && okM then
+  if addEdgesValid raws ws mds then
     addEdgesLoop ws.isSome { s with weighted := s.weighted || ws.isSome } (zipArgs raws ws mds)
   else (s, .rej)
 
@@ -526,13 +529,7 @@ def addEdge (a : Spec) (raw : List Nat) (w : Option Int) (md : Option Meta) : Sp
     ({ a with edges := AL.set a.edges e (if a.weighted then w0 + w.getD one else w0, md.getD []) }, .ok)
 
 def addEdges (a : Spec) (raws : List (List Nat)) (ws : Option (List Int)) (mds : Option (List Meta)) : Spec × Out :=
-  let okW := match ws with
-    | none => true
-    | some l => decide raws.Nodup && l.length == raws.length
-  let okM := match mds with
-    | none => true
-    | some l => raws.length ≤ l.length
-  if okW && okM then
+  if addEdgesValid raws ws mds then
     seqOps (fun a (x : List Nat × Option Int × Option Meta) => addEdge a x.1 (if ws.isSome then x.2.1 else none) x.2.2)
       { a with weighted := a.weighted || ws.isSome } (zipArgs raws ws mds)
   else (a, .rej)
